@@ -176,7 +176,7 @@ CHECKS["C03"] = {
     "quick_fs": ["default", "checks"],
     "thorough_fs": ["default", "checks", "no_copy_impls", "both"],
     "technique": "reader/writer duality by replay in the value-partition abstract interpreter (the reader's MIR is interpreted on each cell with read primitives answered by the writer's emissions; result must be the affine form n); abstract interpretation of each code's MIR under its documented domain (affine + LP, pow2/ilog2 axioms, contracts); structural rule for default parameter selection",
-    "claim": "Partial, stated as such: (K1) for gamma, delta, zeta, minimal binary, pi, Rice, Golomb, exp-Golomb, omega and VByte, under the documented domains (values up to 2^64-2, zeta k in 1..=63, k <= 63, b >= 1, max >= 1) every overflow/shift/division assert, every ilog2 argument, every read_bits/write_bits width (<= 64) and every reachable panic of the write and len functions is discharged, on the default and the `checks` feature set - exactly the large-value / large-parameter corners the suite's grid does not settle; reader functions are checked up to stream-domain assumptions (a length read in unary is bounded only by what the writer emitted); (K3) each parameterless method forwards to the *_param method of the same code on self. (K2) for gamma, delta, zeta_k, pi_k, Rice_k and minimal binary (enumerated parameters, both endiannesses, non-table paths) and for EVERY value of the domain: interpreting the reader's MIR on each cell, with read_unary/read_bits(n) answered by the primitives the writer emitted on that cell (same order, same widths, low n bits of the written operand), consumes all of them and returns exactly n - round trip at the level of stream primitives, which together with C01/C02 (primitives round-trip at any offset) and C05 (tables = bit-by-bit) gives the property for these codes. Golomb_b (b enumerated) is covered the same way on residue classes n = b*y + r (K2.golomb: the reader returns b*y + r). NOT decided: omega, exp-Golomb and VByte read-back (K1 only), parameters outside the enumerated lists; a reader that regroups the same bits into different primitives than the writer is reported as undecidable by K2 (violation), by design.",
+    "claim": "Partial, stated as such: (K1) for gamma, delta, zeta, minimal binary, pi, Rice, Golomb, exp-Golomb, omega and VByte, under the documented domains (values up to 2^64-2, zeta k in 1..=63, k <= 63, b >= 1, max >= 1) every overflow/shift/division assert, every ilog2 argument, every read_bits/write_bits width (<= 64) and every reachable panic of the write and len functions is discharged, on the default and the `checks` feature set - exactly the large-value / large-parameter corners the suite's grid does not settle; reader functions are checked up to stream-domain assumptions (a length read in unary is bounded only by what the writer emitted); (K3) each parameterless method forwards to the *_param method of the same code on self. (K2) for gamma, delta, zeta_k, pi_k, Rice_k and minimal binary (enumerated parameters, both endiannesses, non-table paths) and for EVERY value of the domain: interpreting the reader's MIR on each cell, with read_unary/read_bits(n) answered by the primitives the writer emitted on that cell (same order, same widths, low n bits of the written operand), consumes all of them and returns exactly n - round trip at the level of stream primitives, which together with C01/C02 (primitives round-trip at any offset) and C05 (tables = bit-by-bit) gives the property for these codes. Golomb_b (b enumerated) is covered the same way on residue classes n = b*y + r (K2.golomb: the reader returns b*y + r). exp-Golomb_k for k <= 3 (quick) on the classes n = 2^k*y + r. NOT decided: omega and VByte read-back (K1 only), exp-Golomb for larger k, parameters outside the enumerated lists; a reader that regroups the same bits into different primitives than the writer is reported as undecidable by K2 (violation), by design.",
     "note": "Trusted: rustc MIR, exporter, contracts incl. codeword length bounds, LP entailment. Lemmas L4-L7 and the stream-domain assumption are listed in the evidence and never counted as discharged.",
     "explanation": "E3 obligations + structural rule",
 }
@@ -208,7 +208,7 @@ CHECKS["C04"] = {
     "quick_fs": ["default", "checks"],
     "thorough_fs": ["default", "checks", "both"],
     "technique": "exhaustive comparison of the const-evaluated encode tables with an independent executable definition; value-partition abstract interpretation of the non-table writers (affine/interval domain over MIR, bisection cells) compared field by field with a documented-structure reference; comparison of each writer's emitted field sequence (resolved MIR calls, linear-form normalisation) with the documented structure of its code",
-    "claim": "Partial, stated as such: (D1) for gamma, delta and zeta3 every table codeword (values <= WRITE_MAX = 63/1023/1023, both endiannesses, 4224 entries) equals the codeword of the published definition as transcribed in refcodes.py, and the documented example table of src/codes/mod.rs agrees with both; (D2) for gamma, delta, zeta_k, minimal binary, pi_k, Rice, Golomb and exp-Golomb the bit-by-bit writer emits on every path exactly the documented sequence of fields: unary(floor(log2(n+1))) then a floor(log2(n+1))-bit field; gamma(length) for delta; Rice_k(length) for pi; unary + minimal binary with the documented arguments for zeta/Golomb; gamma(n>>k) + k bits for exp-Golomb; minimal binary's l-bit prefix first and its extra bit last in both endiannesses; (D3) for gamma, delta, zeta_k (where 2^((h+1)k) is representable), omega (BE blocks and LE rotated blocks), pi_k, Rice_k and minimal binary (enumerated k / bounds u), for both endiannesses and EVERY value of the domain: the MIR of the non-table writer, interpreted abstractly on a partition of [0, 2^64-1], emits exactly the documented primitives with the documented widths, and every field value equals the documented one modulo 2^width as an affine function of n (or as (a*n+b)>>1 / &1 for minimal binary's split word); the reference (sa/refspec.py) is written from the module docs and cross-checked against the bit-level definitions and the documented examples (which exposed a wrong example string in omega.rs, fixed as F21). D3 is run on the default and on the `checks` feature set (whose writers mask their operands); (D4) VByte: step points, byte counts and continuation-bit ranges of the six writers on every 64-bit value (the rules of C18.V4). (D3.golomb) Golomb_b on residue classes: unary(n/b) then the documented minimal binary code of n%b. NOT decided: the bit order inside primitives (C01's clauses), exp-Golomb field values and VByte payload bits (D2 structure only), parameters outside the enumerated lists.",
+    "claim": "Partial, stated as such: (D1) for gamma, delta and zeta3 every table codeword (values <= WRITE_MAX = 63/1023/1023, both endiannesses, 4224 entries) equals the codeword of the published definition as transcribed in refcodes.py, and the documented example table of src/codes/mod.rs agrees with both; (D2) for gamma, delta, zeta_k, minimal binary, pi_k, Rice, Golomb and exp-Golomb the bit-by-bit writer emits on every path exactly the documented sequence of fields: unary(floor(log2(n+1))) then a floor(log2(n+1))-bit field; gamma(length) for delta; Rice_k(length) for pi; unary + minimal binary with the documented arguments for zeta/Golomb; gamma(n>>k) + k bits for exp-Golomb; minimal binary's l-bit prefix first and its extra bit last in both endiannesses; (D3) for gamma, delta, zeta_k (where 2^((h+1)k) is representable), omega (BE blocks and LE rotated blocks), pi_k, Rice_k and minimal binary (enumerated k / bounds u), for both endiannesses and EVERY value of the domain: the MIR of the non-table writer, interpreted abstractly on a partition of [0, 2^64-1], emits exactly the documented primitives with the documented widths, and every field value equals the documented one modulo 2^width as an affine function of n (or as (a*n+b)>>1 / &1 for minimal binary's split word); the reference (sa/refspec.py) is written from the module docs and cross-checked against the bit-level definitions and the documented examples (which exposed a wrong example string in omega.rs, fixed as F21). D3 is run on the default and on the `checks` feature set (whose writers mask their operands); (D4) VByte: step points, byte counts and continuation-bit ranges of the six writers on every 64-bit value (the rules of C18.V4). (D3.golomb) Golomb_b on residue classes: unary(n/b) then the documented minimal binary code of n%b. NOT decided: the bit order inside primitives (C01's clauses), exp-Golomb field values for k > 3 (D3 covers k <= 3 on residue classes) and VByte payload bits (D2 structure only), parameters outside the enumerated lists.",
     "note": "Trusted: rustc const evaluation/MIR, exporter, refcodes.py and the skeleton table (both written from the module documentation). D2 compares resolved calls and linear forms, not source text; an equivalent re-derivation of the same fields with different arithmetic would need the table updated.",
     "explanation": "tables vs definitions + exact emitted fields vs documented structure on every cell of the whole domain + field skeletons",
 }
